@@ -346,13 +346,13 @@ Definition okstr (s : str) : bool := all_ascii s && no_lower s.
 Definition opt_okstr (g : option str) : bool := match g with None => true | Some g => all_ascii g end.
 (* round 7: gap-aware subscripts with any step are inside the correspondence (modelled as they are) *)
 Definition gap_ix_ok (gap : option str) (ix : index) : bool := true.
-(* steps inside the claim: ASCII, no lower case written behind the constructor's back, contiguous gap slices *)
+(* steps inside the correspondence: ASCII (single-sequence histories: lower case and every gap-aware step included) *)
 Definition hstep_wf (h : hstep) : bool :=
   match h with
   | HGet gap ix | HGetIn gap ix => opt_okstr gap && gap_ix_ok gap ix
-  | HSet _ v | HIadd v | HData v | HAdd v | HRadd v => okstr v
+  | HSet _ v | HIadd v | HData v | HAdd v | HRadd v => all_ascii v     (* round 7: lower case allowed (constructor in the model) *)
   | HEq t => all_ascii t
-  | HTrans m => trans_ok m
+  | HTrans m => forallb (fun p => is_ascii (fst p) && is_ascii (snd p)) m
   | HOther d gap ix => all_ascii d && opt_okstr gap && gap_ix_ok gap ix
   | HReverse | HLen | HGc => true
   end.
